@@ -72,6 +72,7 @@ type rig struct {
 	fcount  atomic.Int64      // everything the flush subscriber has seen except markers
 	names   map[string]string // pid id -> model name
 	respawn map[string]bool   // the recorder spawns a successor from its Stopped handler
+	lost    bool              // a marker event never reached the flush subscriber
 }
 
 func (r *rig) nameOf(p *actor.PID) string {
@@ -178,6 +179,7 @@ func (r *rig) quiesce(n *int, live map[string]bool, rounds int) bool {
 					break wait
 				}
 			case <-deadline:
+				r.lost = true // an event broadcast to a live, subscribed actor did not arrive
 				return false
 			}
 		}
@@ -269,7 +271,7 @@ func runCase(c *Case) (seen map[string][]Ev, problem string) {
 			<-j.done
 		case "stop":
 			if !r.quiesce(&nmark, live, 1) {
-				return r.snapshot(), "events keep flowing: the engine does not quiesce"
+				return r.snapshot(), r.quiesceProblem()
 			}
 			select {
 			case <-e.Poison(r.pids[op.P]).Done():
@@ -279,7 +281,7 @@ func runCase(c *Case) (seen map[string][]Ev, problem string) {
 			live[op.P] = false
 		case "respawn":
 			if !r.quiesce(&nmark, live, 1) {
-				return r.snapshot(), "events keep flowing: the engine does not quiesce"
+				return r.snapshot(), r.quiesceProblem()
 			}
 			r.mu.Lock()
 			r.respawn[op.P] = true
@@ -316,7 +318,7 @@ func runCase(c *Case) (seen map[string][]Ev, problem string) {
 		}
 	}
 	if !r.quiesce(&nmark, live, 3) {
-		return r.snapshot(), "events keep flowing: the engine does not quiesce"
+		return r.snapshot(), r.quiesceProblem()
 	}
 	// nothing is sent any more: further rounds must not see new events (a marker forwarded to a stopped
 	// subscriber may produce one more dead letter, which ends its subscription; a chain never ends)
@@ -324,7 +326,7 @@ func runCase(c *Case) (seen map[string][]Ev, problem string) {
 	for i := 0; i < 6; i++ {
 		before := r.fcount.Load()
 		if !r.quiesce(&nmark, live, 1) {
-			return r.snapshot(), "events keep flowing: the engine does not quiesce"
+			return r.snapshot(), r.quiesceProblem()
 		}
 		if r.fcount.Load() > before {
 			busy++
@@ -336,6 +338,13 @@ func runCase(c *Case) (seen map[string][]Ev, problem string) {
 		return r.snapshot(), "a finite number of sends keeps producing events: new events in each of 6 consecutive idle rounds"
 	}
 	return r.snapshot(), ""
+}
+
+func (r *rig) quiesceProblem() string {
+	if r.lost {
+		return "C12|an event broadcast while an actor was subscribed (since before the scenario, never unsubscribed) was not delivered to it within 5 s"
+	}
+	return "a live subscriber does not answer: the engine does not quiesce"
 }
 
 func (r *rig) snapshot() map[string][]Ev {
@@ -376,6 +385,9 @@ func judge(c *Case, seen map[string][]Ev, problem string) (string, string) {
 	if problem != "" {
 		if strings.HasPrefix(problem, "harness:") {
 			return "harness", problem
+		}
+		if strings.HasPrefix(problem, "C12|") {
+			return "C12", problem[4:]
 		}
 		return "C09", problem
 	}
